@@ -368,6 +368,8 @@ int main(int argc, char **argv)
   drive_algorithm(thorough);
   c05::drive_values();
   c05::drive_product();
+  c05::drive_nested();
+  c05::drive_parsers();
   vj::close();
   std::fprintf(stderr, "c05_linear: %ld histories, %ld events\n", c05::history_count(), trk::event_count());
   return 0;
